@@ -93,7 +93,7 @@ MUTANTS = [
     ("primitive-sorts-input-in-place", {"C10": "A9.inplace", "C06": "A9.inplace"}, [(NW, "def concatenate_args(axis, *args):\n    return", "def concatenate_args(axis, *args):\n    args[0].sort()\n    return")]),
     ("scatter-with-buffered-add", {"C11": "A9.scatter"}, [(NV, "        onp.add.at(A, idx, x)", "        A[idx] += x")]),
     ("vjps-built-as-generator", {"C10": "A10", "C19": "A10", "C07": "A10"}, [(CO, "        vjps = [vjpmaker(argnum, *args) for argnum in argnums]", "        vjps = (vjpmaker(argnum, *args) for argnum in argnums)")]),
-    ("closure-pops-captured-list", {"C10": "A10", "C19": "A10"}, [(NV, "    def vjp(g):\n        for axis, rep in enumerate(reps):", "    reps = list(reps)\n\n    def vjp(g):\n        reps.reverse()\n        for axis, rep in enumerate(reps):")]),
+    ("closure-pops-captured-list", {"C10": "A10", "C19": "A10"}, [(NV, "    def vjp(g):\n        for axis, rep in enumerate(reps, first_axis):", "    reps = list(reps)\n\n    def vjp(g):\n        reps.reverse()\n        for axis, rep in enumerate(reps, first_axis):")]),
     ("module-level-memo-in-vspace", {"C19": "A11.state"}, [(CO, "def vspace(value):\n    try:\n        return VSpace.mappings[type(value)](value)", "_vspace_memo = {}\n\n\ndef vspace(value):\n    try:\n        _vspace_memo[id(value)] = type(value)\n        return VSpace.mappings[type(value)](value)")]),
     ("lru-cache-on-helper", {"C19": "A11.state"}, [(NV, "def balanced_eq(x, z, y):", "import functools\n\n\n@functools.lru_cache(maxsize=None)\ndef balanced_eq(x, z, y):")]),
     ("registry-written-from-rule", {"C19": "A11.state"}, [(NV, "def grad_transpose(ans, x, axes=None):", "def grad_transpose(ans, x, axes=None):\n    nograd_functions.append(anp.transpose)")]),
@@ -279,6 +279,7 @@ MUTANTS = [
     ("outer-gradient-left-flat", {"C05": "A3.restore"}, [(NV, "    lambda ans, a, b: lambda g: match_complex(a, anp.reshape(anp.dot(g, anp.ravel(b)), anp.shape(a))),", "    lambda ans, a, b: lambda g: match_complex(a, anp.dot(g, anp.ravel(b))),")]),
     ("outer-gradient-reshaped-to-the-other-argument", {"C05": "A3.restore"}, [(NV, "    lambda ans, a, b: lambda g: match_complex(a, anp.reshape(anp.dot(g, anp.ravel(b)), anp.shape(a))),", "    lambda ans, a, b: lambda g: match_complex(a, anp.reshape(anp.dot(g, anp.ravel(b)), anp.shape(b))),")]),
     ("diag-gradient-square-for-every-matrix", {"C05": "A3.restore", "C01": "A3.restore"}, [(NV, "        padded = anp.pad(square, ((0, max(rows - size, 0)), (0, max(cols - size, 0))), mode=\"constant\")\n        return padded[:rows, :cols]", "        return square")]),
+    ("tile-reps-numbered-from-axis-zero", {"C01": "A3.rank", "C05": "A3.rank"}, [(NV, "        for axis, rep in enumerate(reps, first_axis):", "        for axis, rep in enumerate(reps):")]),
 ]
 
 BENIGN = [
@@ -370,6 +371,7 @@ BENIGN = [
     ("linspace-tangent-against-zeros-like-the-other-endpoint", [(NJ, "    lambda g, ans, start, stop, *args, **kwargs: anp.linspace(\n        g, anp.zeros(anp.shape(stop)), *args, **kwargs\n    ),", "    lambda g, ans, start, stop, *args, **kwargs: anp.linspace(g, anp.zeros_like(stop), *args, **kwargs),")]),
     ("tril-triu-rules-from-one-factory", [(NV, "defvjp(anp.triu, lambda ans, x, k=0: unbroadcast_f(x, lambda g: anp.triu(g, k=k)))\ndefvjp(anp.tril, lambda ans, x, k=0: unbroadcast_f(x, lambda g: anp.tril(g, k=k)))", "def _triangle_rule(tri):\n    return lambda ans, x, k=0: unbroadcast_f(x, partial(tri, k=k))\n\n\nfor _tri in (anp.triu, anp.tril):\n    defvjp(_tri, _triangle_rule(_tri))")]),
     ("diag-crop-written-with-slice-objects", [(NV, "        return padded[:rows, :cols]", "        return padded[slice(None, rows), slice(None, cols)]")]),
+    ("tile-reps-offset-from-the-answers-rank", [(NV, "    first_axis = max(len(x_shape) - len(reps), 0)", "    first_axis = anp.ndim(ans) - len(reps)")]),
 ]
 
 
